@@ -35,14 +35,15 @@ class ConstSource(ChoiceSource):
         return lo
 
 
-def taste_both(ctx, path, limit, sched_seed, **kw):
+def taste_both(ctx, path, limit, sched_seed, keep_pools=False, **kw):
     from amr_kitchen.taste import Taster
     lim = {} if limit is None else {"limit_level": limit}
     res = {}
     for mode in ("fail", "nofail"):
         ctx.pool_src = RandomSource(sched_seed) if sched_seed else ConstSource()
-        ctx.pool_seq = 0
-        ctx.reset_pools()
+        if not keep_pools:
+            ctx.pool_seq = 0
+            ctx.reset_pools()
         try:
             if mode == "fail":
                 o = run_tool(ctx, lambda: bool(Taster(path, verbose=0, **lim, **kw)), drain=True)
@@ -52,7 +53,8 @@ def taste_both(ctx, path, limit, sched_seed, **kw):
             ctx.pool_src = None
         res[mode] = o
         ctx.stats["taste_runs"] += 1
-    ctx.reset_pools()
+    if not keep_pools:
+        ctx.reset_pools()
     return res
 
 
@@ -167,9 +169,30 @@ def run_case(ctx):
                             cap_single=60 if quick else 400, n_pairs=8 if quick else 60)
     nboxes = [len(b) for b in m.boxes]
     keys = []
+    # history: in a sixth of the cases an INTACT copy was validated first, under the same relative name in
+    # another run directory, with FORK pools (workers that outlive a validation keep the directory they were
+    # forked in and would read the intact files); pools are not reset between the validations of such a case
+    hist = bool(src.flag("hist.rel_cwd_fork", 6))
+    tree_dir, tree_arg = ctx.scratch, None
+    if hist:
+        ctx.fork_mode = True
+        run_a = os.path.join(ctx.scratch, "run_a")
+        tree_dir = os.path.join(ctx.scratch, "run_b")
+        os.makedirs(run_a)
+        os.makedirs(tree_dir)
+        shutil.copytree(master, os.path.join(run_a, "tree"))
+        from amr_kitchen.taste import Taster as _T
+        ctx.pool_src = ConstSource()
+        run_tool(ctx, lambda: bool(_T("tree", nofail=True, verbose=0, boxes_coordinates=True)), cwd=run_a)
+        ctx.pool_src = None
+        ctx.default_cwd = tree_dir
+        tree_arg = "tree"
+        import random as _r
+        plans = [plans[i] for i in sorted(_r.Random(src.draw("hist.subset", 0, 9999)).sample(range(len(plans)), min(6, len(plans))))]
+        ctx.probe("history.rel-cwd-fork")
     for n, plan in enumerate(plans):
         # every damaged tree takes the SAME path in turn (anything remembered per path is stale then)
-        tree = os.path.join(ctx.scratch, "tree")
+        tree = os.path.join(tree_dir, "tree")
         shutil.rmtree(tree, ignore_errors=True)
         shutil.copytree(master, tree)
         descs = []
@@ -192,14 +215,15 @@ def run_case(ctx):
             for c in {c for c, _ in judged}:
                 ctx.stats[f"class.{c}"] += 1
             ctx.nontrivial = True
-            res = taste_both(ctx, tree, lim_arg, sched_seed + n if sched_seed else 0)
+            res = taste_both(ctx, tree_arg or tree, lim_arg, sched_seed + n if sched_seed else 0, keep_pools=hist)
             sig = {"property": ID, "op": opname, "classes": "+".join(sorted({c for c, _ in judged}))}
             check_rejects(ctx, sig, res, descs, judged, m, limit)
             ctx.stats["rejected_as_demanded"] += 1
         elif coord_damage:
             ctx.stats["coord_damage"] += 1
             ctx.nontrivial = True
-            res = taste_both(ctx, tree, lim_arg, sched_seed + n if sched_seed else 0, boxes_coordinates=True)
+            res = taste_both(ctx, tree_arg or tree, lim_arg, sched_seed + n if sched_seed else 0, keep_pools=hist,
+                             boxes_coordinates=True)
             sig = {"property": ID, "op": opname, "classes": "box-bounds-contradict-indexes"}
             check_rejects(ctx, sig, res, descs, [("box-bounds", "moved by one cell")], m, limit)
         else:
@@ -207,7 +231,7 @@ def run_case(ctx):
             if len(plan) == 1:
                 ctx.stats[f"noteff.{opname}{'' if plan[0][1][0] <= limit else '(above limit)'}"] += 1
             # nothing is demanded; still exercise taste (it must not hang or kill the harness)
-            res = taste_both(ctx, tree, lim_arg, 0)
+            res = taste_both(ctx, tree_arg or tree, lim_arg, 0, keep_pools=hist)
             if res["nofail"].ok and res["nofail"].value is True:
                 ctx.stats["undemanded_accepted"] += 1
         keys.append((opname, [a for _, a in plan]))
